@@ -186,3 +186,34 @@ def api_recv(checks=None, nmax=12, only=None):
     if only:
         h["cases"] = [c for c in h["cases"] if c["name"] in only]
     return h
+
+
+def hs_dispatch(checks=None, n=32, only=None):
+    """parseSSLHandshake with DTLS / TLS reassembly over parser stubs"""
+    def loops(dtls):
+        f = "parseSSLHandshake"
+        msgs = (20 // 12 + 1) if dtls else (12 // 4 + 1)
+        return {f + ":/goto parseHandshake/": msgs,
+                "dtlsHsHashFragMsg:/while \\(i < MAX_FRAGMENTS\\)/": 30,
+                "dtlsSeenFrag:/for \\(i = 0/": 17, "dtlsInitFrag:/for \\(i = 0/": 17,
+                "vf_harness:/for \\(i = 0; i < MAX_FRAGMENTS/": 17, "vf_harness:/for \\(i = 0; i < NFR/": 4,
+                "vf_harness:/for \\(a = 0/": 4, "vf_harness:/for \\(b = 0/": 4,
+                "memcmp.0": 10, "memcmpct:/./": 12, "vf_bytes:/./": n + 2,
+                "memmove:/for \\(i = 0/": 49, "realloc:/for \\(i = 0/": 49, "calloc:/for \\(i = 0/": 49, "malloc:/for \\(j = /": 9, "vf_heap_slot_of:/for \\(j = /": 9}
+    h = dict(
+        name="hs_dispatch", dir="C08", src="hs_dispatch.c", checks=checks if checks is not None else MEMCHECKS,
+        units=["matrixssl/dtls.c", "matrixssl/hsNegotiateVersion.c", "core/src/corelib_strings.c"],
+        functions=["parseSSLHandshake", "dtlsSeenFrag", "dtlsInitFrag", "dtlsHsHashFragMsg"],
+        sources=["matrixssl/sslDecode.c", "matrixssl/dtls.c"],
+        termination_loops=["dtlsHsHashFragMsg"], native_timeout_s=20,
+        assumptions=[
+            "hs_dispatch: the per-message parsers of hsDecode.c are contract stubs (cursor anywhere in [c, end], any documented status, arbitrary next hsState); handshake-hash functions are stubs that read both ends of the range they are given; sslResetContext is a no-op",
+            "hs_dispatch: RI-frag (proved preserved by the step): a DTLS reassembly in progress has fragMessage of fragLenStored bytes (16 here), 1..2 stored fragments that are non-empty, inside the buffer, pairwise disjoint, listed without holes, fragTotal = sum < fragLenStored; TLS: fragIndex < fragTotal = size of fragMessage; session-ticket pointer/length agree; record of 1..%d decrypted bytes" % n,
+        ],
+        unwind=20,
+        cases=[dict(name="dtls12", defs={"VF_VER": "(v_dtls_1_2|v_tls_negotiated)", "VF_DTLS": 1, "VF_N": 20}, unwindset=loops(1)),
+               dict(name="tls12", defs={"VF_VER": "(v_tls_1_2|v_tls_negotiated)", "VF_DTLS": 0, "VF_N": 12}, unwindset=loops(0))],
+    )
+    if only:
+        h["cases"] = [c for c in h["cases"] if c["name"] in only]
+    return h
